@@ -120,6 +120,9 @@ class C14(Base):
                 # that came from get_for_lang only): the memoizer it runs on must be handed out
                 if not conc and h < len(from_get) and from_get[h] and rng.random() < 0.15:
                     x = 777
+                # x = 778: the callback does a lookup on ANOTHER memoizer (live handle with the largest smaller index)
+                if x not in (666, 777) and nh >= 2 and rng.random() < 0.1 and (ty, arg) != ("C", "7a7a"):
+                    x = 778
                 ops.append("get:%d:%s:%s:%d:%s" % (h, ty, arg, x, rng.choice("dk")))
         return ("cseq " if conc else "seq ") + ";".join(ops)
 
@@ -140,6 +143,30 @@ class C14(Base):
             t2 = ty if rng.random() < 0.8 else rng.choice(["A", "C"])
             ops.append("get:0:%s:%s:%d:%s" % (t2, v, rng.randrange(100), rng.choice("dk")))
         return ("cseq " if conc else "seq ") + ";".join(ops)
+
+    MANY_LANGS = ['en', 'pl', 'de', 'ca', 'aa', 'ab', 'af', 'ak', 'am', 'an', 'ar', 'as', 'az', 'be', 'bg', 'bm', 'bn', 'bo', 'br', 'bs', 'cs', 'cy', 'da', 'dz', 'ee', 'el', 'eo', 'es', 'et', 'eu', 'fa', 'ff', 'fi', 'fo']
+
+    def gen_manylangs(self, rng):
+        """MANY languages in the per-language table (9-30, most handles dropped again so that the table is full of dead
+        entries), a few handles held throughout and asked for AGAIN at the end: a held memoizer must be handed out again,
+        with its formatter still cached"""
+        n = rng.choice([9, 12, 16, 17, 18, 24, 30])
+        langs = rng.sample(self.MANY_LANGS, n)
+        held = rng.sample(range(n), rng.choice([1, 2, 3]))
+        ops, h = [], 0
+        hidx = {}
+        for i, l in enumerate(langs):
+            ops.append("lang:" + l)
+            hidx[i] = h
+            ops.append("get:%d:A:%s:%d:d" % (h, hx("a"), rng.randrange(100)))
+            if i not in held and rng.random() < 0.8:
+                ops.append("drop:%d" % h)
+            h += 1
+        for i in held:
+            ops.append("lang:" + langs[i])           # must be the allocation of handle hidx[i]
+            ops.append("get:%d:A:%s:%d:d" % (h, hx("a"), rng.randrange(100)))
+            h += 1
+        return "seq " + ";".join(ops)
 
     def gen_failthen(self, rng, conc):
         a = hx(rng.choice(ARGS))
@@ -209,6 +236,8 @@ class C14(Base):
             yield "memo " + self.gen_lifecycle(rng)
         for _ in range(150 if q else 5000):
             yield "memo " + self.gen_many(rng, rng.random() < 0.35)
+        for _ in range(150 if q else 5000):
+            yield "memo " + self.gen_manylangs(rng)
         for _ in range(1000 if q else 20000):
             yield "memo " + self.gen_hist(rng, True, 30)
         for _ in range(2500 if q else 120000):
@@ -294,6 +323,45 @@ class C14(Base):
         obs = impl_obs.split(";") if impl_obs else []
         if len(ops) != len(obs):
             return "observation count %d != op count %d" % (len(obs), len(ops))
+        # x = 778: the callback looks up the fixed key C "zz" on the live handle with the largest index below its own.
+        # For the oracle that is the outer lookup followed by a lookup on that partner: split op and observation in two
+        # (the inner key is used by nothing else, so its construction event is recognised by its name)
+        live, ops2, obs2 = [], [], []       # live[j] = memoizer class of handle j, None once dropped
+        for op, o in zip(ops, obs):
+            p = op.split(":")
+            if p[0] in ("lang", "new") and o.startswith("h"):
+                live.append(o.partition("=m")[2].partition("/")[0])
+            elif p[0] == "drop" and o == "ok" and p[1].isdigit() and int(p[1]) < len(live):
+                live[int(p[1])] = None
+            if p[0] == "get" and len(p) > 4 and p[4] == "778" and p[1].isdigit():
+                h = int(p[1])
+                own = live[h] if h < len(live) else None
+                partner = next((j for j in range(min(h, len(live)) - 1, -1, -1) if live[j] is not None and live[j] != own), None)
+                if partner is None:
+                    if o != "bad-op":
+                        return "op (%s): no other live memoizer, expected bad-op, got %s" % (op, o[:80])
+                    continue
+                evs, _, res = o.partition(">")
+                if "+inner=" in res:
+                    outer_res, _, inner_res = res.partition("+inner=")
+                    ev_list = [e for e in evs.split(",") if e]
+                    inner_evs = [e for e in ev_list if e.startswith("C/") and "/7a7a=" in e]
+                    outer_evs = [e for e in ev_list if e not in inner_evs]
+                    if p[2] == "C" and p[3] == "7a7a":          # the outer key happens to be the inner key's name
+                        outer_evs, inner_evs = ev_list[:max(0, len(ev_list) - 1)] if len(ev_list) == 2 else [], ev_list[-1:] if ev_list else []
+                        if len(ev_list) == 1:
+                            # one event: decide by the language in the event and the two memoizers later (keep it with the inner)
+                            pass
+                    ops2.append(op)
+                    obs2.append(",".join(outer_evs) + ">" + outer_res)
+                    ops2.append("get:%d:C:7a7a:0:d" % partner)
+                    obs2.append(",".join(inner_evs) + ">" + inner_res)
+                    continue
+                if res.startswith("ok:"):
+                    return "op (%s): the callback did not report its nested lookup: %s" % (op, o[:100])
+            ops2.append(op)
+            obs2.append(o)
+        ops, obs = ops2, obs2
         handles = []       # class or None
         classes = {}       # class -> dict(lang, cache, live)
         table = {}         # lang -> class handed out by get_for_lang
